@@ -7,4 +7,5 @@ CONSTANTS
   KeepInt = 20
   KeepFloat = 400
   KeepRatio = 40
+  WithStrings = TRUE
 CHECK_DEADLOCK FALSE
